@@ -5,6 +5,7 @@ package podeni
 import (
 	"context"
 	"strconv"
+	"time"
 
 	corev1 "k8s.io/api/core/v1"
 	k8sErr "k8s.io/apimachinery/pkg/api/errors"
@@ -132,6 +133,10 @@ func ZZ_C10_podeni_reconcile() {
 		}
 		rec.Spec.Allocations = append(rec.Spec.Allocations, v1beta1.Allocation{ENI: v1beta1.ENI{ID: "eni-" + strconv.Itoa(i)}, AllocationType: v1beta1.AllocationType{Type: at}})
 	}
+	// a retained record may carry the stamp of its previous pod (earlier than anything the clock shows now)
+	if zz.Bool("record.has.old.lastSeen") {
+		rec.Status.PodLastSeen = metav1.Unix(-1000, 0)
+	}
 	deleting := zz.Bool("deletion.mark")
 	hasFinalizer := zz.Bool("finalizer")
 	if hasFinalizer {
@@ -166,7 +171,15 @@ func ZZ_C10_podeni_reconcile() {
 		return nil
 	})
 
+	before := time.Now()
 	_, err := m.Reconcile(context.Background(), reconcile.Request{NamespacedName: k8stypes.NamespacedName{Namespace: "ns", Name: "p0"}})
+	// binding a fixed-address record means the controller has just seen its pod: the last-seen stamp
+	// (from which the release TTL counts, C11) is refreshed on every bind, also on a re-bind
+	for _, o := range w.ops {
+		if (o.kind == "status-update" || o.kind == "status-patch") && o.rec.Status.Phase == v1beta1.ENIPhaseBind && old != v1beta1.ENIPhaseBind && fixed {
+			zz.Assert(!o.rec.Status.PodLastSeen.Time.Before(before), "binding a fixed-address record stamps the pod as seen now (the release TTL restarts at every bind)")
+		}
+	}
 
 	count := func(kind string) int {
 		n := 0
@@ -251,4 +264,41 @@ func ZZ_C10_podeni_reconcile() {
 		}
 	}
 	zz.Reach("podeni-reconciled")
+}
+
+// C11 (the release TTL counts from the moment the controller last observed
+// the pod), binding side: every bind of a fixed-address record - the first
+// one and the re-bind of a retained record to its re-created pod - stamps the
+// pod as seen now, so a stamp left by the previous pod never makes the TTL
+// run out early.
+// zz:noreplay attachENI (concurrent cloud calls) and injectNodeStatus are summarised through engine-side overrides
+func ZZ_C11_bind_refreshes_last_seen() {
+	old := []v1beta1.Phase{v1beta1.ENIPhaseInitial, v1beta1.ENIPhaseBinding}[zz.Fork("phase", 2)]
+	rec := &v1beta1.PodENI{ObjectMeta: metav1.ObjectMeta{Namespace: "ns", Name: "p0", Annotations: map[string]string{types.PodUID: "uid-a"}, Finalizers: []string{types.FinalizerPodENI}}}
+	rec.Status.Phase = old
+	rec.Status.InstanceID = "i-1"
+	rec.Spec.Allocations = []v1beta1.Allocation{{ENI: v1beta1.ENI{ID: "eni-0"}, AllocationType: v1beta1.AllocationType{Type: v1beta1.IPAllocTypeFixed, ReleaseStrategy: v1beta1.ReleaseStrategyTTL, ReleaseAfter: "10m"}}}
+	hadStamp := zz.Bool("record.has.old.lastSeen")
+	if hadStamp {
+		rec.Status.PodLastSeen = metav1.Unix(-1000, 0)
+	}
+	w := &zzWorld10{rec: rec, failAt: -1}
+	w.node = &corev1.Node{ObjectMeta: metav1.ObjectMeta{Name: "node-1", Labels: map[string]string{corev1.LabelTopologyRegion: "r", corev1.LabelInstanceTypeStable: "t", corev1.LabelTopologyZone: "z"}}}
+	w.node.Spec.ProviderID = "r.i-1"
+	w.pod = &corev1.Pod{ObjectMeta: metav1.ObjectMeta{Namespace: "ns", Name: "p0", UID: "uid-a"}}
+	w.pod.Spec.NodeName = "node-1"
+	m := &ReconcilePodENI{client: w, aliyun: w}
+	zz.Override(zzInject, func(m *ReconcilePodENI, ctx context.Context, namespace, name string) context.Context { return ctx })
+	zz.Override(zzAttach, func(m *ReconcilePodENI, ctx context.Context, podENI *v1beta1.PodENI) error { return nil })
+	before := time.Now()
+	_, err := m.Reconcile(context.Background(), reconcile.Request{NamespacedName: k8stypes.NamespacedName{Namespace: "ns", Name: "p0"}})
+	zz.Assert(err == nil, "binding succeeds without faults")
+	bound := 0
+	for _, o := range w.ops {
+		if o.kind == "status-update" && o.rec.Status.Phase == v1beta1.ENIPhaseBind {
+			bound++
+			zz.Assert(!o.rec.Status.PodLastSeen.Time.Before(before), "binding a fixed-address record stamps the pod as seen now, whatever stamp the record carried")
+		}
+	}
+	zz.Assert(bound == 1, "the record is moved to bound exactly once")
 }
